@@ -12,6 +12,7 @@ from . import common as K
 
 ID = "C03"
 ENCODED = [
+    "tdgl.finite_volume.operators:MeshOperators.build_operators",
     "tdgl.finite_volume.operators:build_divergence",
     "tdgl.finite_volume.operators:build_gradient",
     "tdgl.finite_volume.operators:build_laplacian",
@@ -48,6 +49,11 @@ def cases(tier, seed):
     meshes.warm(names, seed)
     out = [Case(f"ops:{n}", mesh=n, kind="ops", seed=seed) for n in names]
     out.append(Case("linear:T2", mesh="T2", kind="linear", seed=seed))
+    # the operators a solver object actually holds, for every sparse back end that can be set up without
+    # its library being installed here (superlu; pardiso: the matrix is only re-formatted; umfpack and cupy
+    # cannot be set up in this sandbox and stay outside)
+    for backend in ("SUPERLU", "PARDISO"):
+        out.append(Case(f"backend:{backend}:F5", mesh="F5", kind="backend", backend=backend, seed=seed))
     return out
 
 
@@ -55,7 +61,29 @@ def get_mesh(name, seed):
     return meshes.get(name, seed)
 
 
+def body_backend(H, case):
+    """`MeshOperators.build_operators` re-formats the scalar Laplacian for the chosen linear solver: the matrix
+    the Poisson solve uses must still be the Laplacian (entry by entry) and the divergence of the gradient"""
+    import tdgl.finite_volume.operators as ops
+    from tdgl.solver.options import SparseSolver
+
+    mesh = meshes.symbolise(get_mesh(case.mesh, case.seed), H)
+    ns = len(mesh.sites)
+    mo = ops.MeshOperators(mesh, getattr(SparseSolver, case.backend))
+    mo.build_operators()
+    L, _ = ops.build_laplacian(mesh)
+    M = mo.mu_laplacian
+    pat = sorted(set(K.pattern(L)) | set(K.pattern(M)))
+    H.prove("the solver's scalar Laplacian has the pattern of the Laplacian", K.pattern(M) == K.pattern(L))
+    for (i, j) in pat:
+        H.prove_eq(f"solver's scalar Laplacian [{i},{j}] = Laplacian [{i},{j}]", K.entry(M, i, j), K.entry(L, i, j))
+    f = H.reals("f", ns)
+    H.prove_all_eq("solver's Laplacian = its divergence of its gradient", M @ f, mo.divergence @ (mo.mu_gradient @ f))
+
+
 def body(H, case):
+    if case.kind == "backend":
+        return body_backend(H, case)
     if case.kind == "linear":
         return body_linear(H, case)
     import tdgl.finite_volume.operators as ops
